@@ -207,7 +207,8 @@ func propagationForCalledTo(
 		return true
 	}
 
-	if definedArgT.Round != "" && definedArgT.Round != argT.Round {
+	if definedArgT.Round != "" && definedArgT.Round != argT.Round &&
+		(definedArgT.IsUnknownType() || definedArgT.IsAnyType()) {
 		argT.SetIsInfferedFromCall(true)
 
 		definedArgT :=
